@@ -217,6 +217,7 @@ class HostRun:
   def _alloc(self, shape, dtype, fill):
     if isinstance(shape, (int, np.integer)):
       shape = (int(shape),)
+    dtype = {bool: wp.bool, int: wp.int32, float: wp.float32}.get(dtype, dtype)  # as the real allocators canonicalise
     sk, ncomp, vshape, vdt = dtype_info(dtype)
     n = int(np.prod(shape)) if len(shape) else 1
     init = np.full((n, ncomp), fill, dtype=float)
